@@ -353,13 +353,11 @@ C06 += [
         unwindset="hwloc__xml_import_userdata.0:6,verif_exact_string_of.0:5,sprintf.0:13", defines={"XB": 4, "XNUM_MAX": "0xffffffffUL"},
         note="hwloc__xml_import_userdata against the contract of the XML state API (get_content delivers exactly the expected length, as both backends do): any <= 5 attributes (length / encoding / name / unknown, arbitrary values or 'base64'), contents <= 4 bytes, announced lengths < 2^32 (beyond 3*2^62 BASE64_ENCODED_LENGTH wraps: observed, not decided), callback present or not, decoded or not, hwloc_decode_from_base64 as its contract: memory safe, the callback receives `length` readable bytes, close_content is only called after a successful get_content"),
 ]
-# work in progress (not registered: one assertion of the set_value stub is refuted for a reason not yet understood -- a harness problem until shown otherwise)
-XML_IMPORT_WIP = [
+C06 += [
     Job(name="xml_import_memattr_value", driver="xml.drv.c", entry="hp_xml_import_memattr_value", mode="plain", unwind=26, min_post=0, cost=60, family="xmlimport", label="bounded", timeout=1500, objbits=12,
         unwindset="hwloc__xml_import_memattr_value.0:8,verif_exact_string_of.0:4",
         note="hwloc__xml_import_memattr_value against the contract of the XML state API: any <= 6 attributes (the six it knows + unknown ones, arbitrary values), any attribute flags and id: memory safe, 0/-1, hwloc_internal_memattr_set_value is called exactly when the element is accepted, with a valid target type and a well-formed initiator; an initiator cpuset is released exactly once"),
 ]
-PROPS["C06WIP"] = XML_IMPORT_WIP
 PROPS["C06"] = C06 + [j for j in C05 if j.name.startswith("base64_decode_safe")]   # the decoder is also a leaf of the XML import (userdata)
 
 
